@@ -536,7 +536,12 @@ class IncrementalExecutor(Executor[DeliveryGroupMap]):
         filtered_tasks: list[ExecutionGroup] = []
         for task in tasks:
             if has_nulled_position(task.path):
+                # A computation that was started early keeps running until its
+                # cancelled future has unwound, so that future is tracked as well.
+                pending_future = task.computation.pending_future
                 self.settle_abort_result(task.computation.abort(cancellation_reason))
+                if pending_future is not None:
+                    self.settle_in_background([pending_future])
             else:
                 filtered_tasks.append(task)
 
